@@ -254,6 +254,12 @@ def pool():
         add(n)
     add(1, "(%d - %d)" % (2 ** 70 + 1, 2 ** 70))          # small value, big representation
     add(2 ** 53 + 1, "(2^53 + 1)")
+    # the machine-word extremes in machine-word representation (the rendered literals above arrive as big integers)
+    add(-(2 ** 63), "int(\"-9223372036854775808\")")
+    add(2 ** 63 - 1, "int(\"9223372036854775807\")")
+    add(-(2 ** 63) + 1, "int(\"-9223372036854775807\")")
+    add(0, "(2^64 - 2^64)")
+    add(-1, "(2^64 - 2^64 - 1)")
     f13 = 1 / 3
     for x in [0.0, -0.0, 1.0, -1.0, 0.5, 1.5, -1.5, 0.1, f13, math.nextafter(f13, 1), math.nextafter(f13, 0),
               2.0 ** 53, 2.0 ** 53 + 2, 2.0 ** 63, 2.0 ** 64, -(2.0 ** 63), 1e30, 1e22, 5e-324, 1.7976931348623157e308,
